@@ -27,3 +27,5 @@ pub fn param_from_iso2(t: &Iso2) -> T2Storage {
 
 #[cfg(feature = "verif")]
 pub use jacobian::point_surface_jacobian as verif_point_surface_jacobian;
+#[cfg(feature = "verif")]
+pub use points_to_curve::verif_points_to_curve_eval;
